@@ -108,9 +108,7 @@ def _encode(repo: Repo, cls, obj: Obj):
     return m, vals.pop()
 
 
-def run(chk: Check, repo: Repo) -> None:
-    fi, classes, resolve = _mk_resolver(chk, repo)
-    chk.floor("tpci_classes", len(classes), 9)
+def _init_cuts(repo: Repo, fi, classes) -> None:
     cuts = {0, 1}
     for n in ast.walk(fi.node):
         if isinstance(n, ast.Constant) and isinstance(n.value, int) and not isinstance(n.value, bool) and 0 <= n.value <= 15:
@@ -120,6 +118,39 @@ def run(chk: Check, repo: Repo) -> None:
         if isinstance(v, int) and 0 <= v <= 15:
             cuts.add(v)
     _CUTS[:] = sorted(cuts)
+
+
+def group_tpci_codes(repo: Repo) -> set | None:
+    """the octets `to_knx` gives for every TPCI object TPCI.resolve can return for a group / broadcast destination
+    (all cells of the decision table); None when one of them is not a constant."""
+    class _Stub:
+        def unit(self, *a, **k):
+            pass
+    fi, classes, resolve = _mk_resolver(_Stub(), repo)  # type: ignore[arg-type]
+    _init_cuts(repo, fi, classes)
+    out: set = set()
+    for control in (0, 1):
+        for numbered in (0, 1):
+            for sname, seq in _seq_cells():
+                for flags in range(4):
+                    raw = B.norm([(7, 1, control), (6, 1, numbered), (2, 4, seq), (0, 2, flags)])
+                    for g, z in ((True, False), (True, True)):
+                        for kind, val in resolve(raw, g, z):
+                            if kind != "ok":
+                                continue
+                            if not isinstance(val, Obj) or val.cls not in classes:
+                                return None
+                            _, enc = _encode(repo, classes[val.cls], val)
+                            if not isinstance(enc, int):
+                                return None
+                            out.add(enc)
+    return out
+
+
+def run(chk: Check, repo: Repo) -> None:
+    fi, classes, resolve = _mk_resolver(chk, repo)
+    chk.floor("tpci_classes", len(classes), 9)
+    _init_cuts(repo, fi, classes)
     chk.count("sequence_cut_points", len(_CUTS))
     dst_kinds = [("individual", False, False), ("group", True, False), ("broadcast", True, True)]
     accepted = 0
